@@ -24,5 +24,6 @@ META = {
 def check(ctx):
     adapter.interact(ctx)
     adapter.consumers(ctx)
+    step.hamiltonian_refresh(ctx)
     step.step_sv(ctx)
     ctx.floor("INTERACT", 8)
